@@ -15,7 +15,7 @@ func init() {
 		ID:  "C08",
 		Run: runC08,
 		Rule: "every membership pattern of interface Named and union AB over objects A,B,C (7 x 7 schema variants, data re-typed per variant with mixed concrete lists and null elements) " +
-			"x documents within k mutations (menu incl. abstract-dispatch selections) of 6 abstract base documents (__typename, inline and named fragments conditioned on objects / the interface / the union, " +
+			"x documents within k mutations (menu incl. abstract-dispatch selections) of 7 abstract base documents (__typename, inline and named fragments conditioned on objects / the interface / the union, " +
 			"under abstract and object containers, nested) x binding {RegisterType, @go short / pkg.Name / full path, by name on a cold root} for the reflection strategy; " +
 			"oracle = reference executor with the standard applicability relation. distinct = (variant, document); non-trivial = some fragment applies and some does not, or __typename under an abstract container",
 		Technique:      "bounded-exhaustive enumeration (complete over membership patterns and binding modes, mutation-bounded over documents) on the real resolver against a reference executor",
@@ -30,12 +30,13 @@ func c08Docs() []*world.Doc {
 	return []*world.Doc{
 		world.Q(F("nameds", F("__typename"), F("name"), In("A", F("id")), In("B", F("s")), In("C", F("i")))),
 		world.Q(F("us", F("__typename"), In("A", F("id")), In("B", F("s")), In("Named", F("name")), In("AB", world.Al("t", F("__typename"))))),
-		world.Q(F("a", In("Named", F("name")), In("AB", F("id")), In("B", F("s"))), F("kids", In("Named", F("name"))), F("c", In("Named", F("name")), In("AB", F("s")), F("id"))),
+		world.Q(F("a", In("Named", F("name")), In("AB", world.Al("t", F("__typename")), In("A", F("id"))), In("B", F("s"))), F("kids", In("Named", F("name"))), F("c", In("Named", F("name")), In("AB", In("B", F("s"))), F("id"))),
 		{Ops: []*world.Op{{Type: "query", Anon: true, Sels: []*world.Sel{F("nameds", Sp("FN"), Sp("FA")), F("us", Sp("FN"), Sp("FU")), F("b", Sp("FN"), Sp("FU"))}}},
 			Frags: []*world.Frag{{Name: "FN", Cond: "Named", Sels: []*world.Sel{F("name"), F("__typename")}},
 				{Name: "FA", Cond: "A", Sels: []*world.Sel{F("id")}},
 				{Name: "FU", Cond: "AB", Sels: []*world.Sel{world.Al("t", F("__typename")), In("A", F("s"))}}}},
 		world.Q(F("nameds", In("A", F("named", F("__typename"), In("B", F("id"))), F("us", In("Named", F("name")))), In("B", F("u", F("__typename"))))),
+		world.Q(F("nameds", F("name"), F("buddy", F("__typename"), F("name"), In("A", F("onlyA")), In("B", F("onlyB")), In("C", F("onlyC")))), F("as", F("buddy", F("onlyA"), F("__typename"))), F("us", In("A", F("buddy", F("onlyA"))), In("B", F("buddy", F("__typename"))))),
 		world.Q(F("named", F("__typename"), F("name")), F("u", F("__typename")), F("mnamed", F("__typename"), In("A", F("id"))), F("a", F("named", F("__typename")), F("u", In("B", F("i"))))),
 	}
 }
@@ -170,7 +171,7 @@ func runC08(c *core.Ctx) {
 		}
 	}
 	_ = k
-	c.R.Bound = "49 membership variants x 6 abstract bases x 5 binding modes x 2 graphs; mutation depth per variant: quick 0 (9 corner variants 1), thorough 1 (default variant 2)"
+	c.R.Bound = "49 membership variants x 7 abstract bases x 5 binding modes x 2 graphs; mutation depth per variant: quick 0 (9 corner variants 1), thorough 1 (default variant 2)"
 	if !completed {
 		c.Cap("deadline reached")
 	}
